@@ -31,7 +31,8 @@ theorem draw_not_hang {G : Type} (width : G → Int) (m : TI G) (prompt : List G
     cases hp : promptLoop width winW prompt 0 with
     | none => rfl
     | some col =>
-      obtain ⟨off, hoff'⟩ := scrollLoop_terminates width m.content m.cursor col winW (m.content.length + 2) m.offset (by omega)
+      obtain ⟨off, hoff'⟩ := scrollLoop_terminates width m.content m.cursor col winW (m.content.length + 2)
+        (if widthToCursor width m.content.length 0 m.content 0 0 + col + 4 < winW then 0 else m.offset) (by split <;> omega)
       simp only [hoff']
 
 open VaxisModel.Spec.Editor (Ed Op lead wordLeftPos wordRightPos)
@@ -411,7 +412,8 @@ theorem draw_keeps (width : G → Int) (m : TI G) (prompt : List G) (winW : Int)
       · cases hd; exact ⟨h, rfl⟩
     | some col =>
       simp only [hp] at hd
-      cases hs : scrollLoop width m.content m.cursor col winW (m.content.length + 2) m.offset with
+      cases hs : scrollLoop width m.content m.cursor col winW (m.content.length + 2)
+          (if widthToCursor width m.content.length 0 m.content 0 0 + col + 4 < winW then 0 else m.offset) with
       | none =>
         simp only [hs] at hd
         rcases hd with hd | hd <;> cases hd
@@ -556,21 +558,41 @@ theorem cursorLoop_fit {G : Type} (width : G → Int) (hw : ∀ g, 0 ≤ width g
       · have hp : ¬ (i < cursorIdx ∧ cursorIdx ≤ i + ((gs.length : Int) + 1)) := by omega
         rw [if_neg hc2, if_neg hp, if_neg hc1]
 
-/-- While prompt + text + scrolloff fit in the window and nothing is scrolled, `Draw` leaves the
-offset at 0 and shows the cursor at prompt width + display width of the text before the cursor. -/
+theorem widthToCursor_all {G : Type} (width : G → Int) (cursor : Int) :
+    ∀ (l : List G) (i w : Int), 0 ≤ i → i + l.length ≤ cursor →
+    widthToCursor width cursor 0 l i w = w + widthSumI width l := by
+  intro l
+  induction l with
+  | nil => intro i w _ _; simp [widthToCursor, widthSumI]
+  | cons g gs ih =>
+    intro i w hi hc
+    simp only [List.length_cons, Int.natCast_add, Int.cast_ofNat_Int] at hc
+    unfold widthToCursor
+    have h1 : ¬ i < 0 := by omega
+    have h2 : ¬ i = cursor := by omega
+    simp only [h1, h2, ↓reduceIte, widthSumI]
+    rw [ih (i + 1) (w + width g) (by omega) (by omega)]
+    omega
+
+/-- While prompt + text + scrolloff fit in the window, `Draw` resets the offset to 0 and shows the
+cursor at prompt width + display width of the text before the cursor. -/
 theorem draw_cursor_fit {G : Type} (width : G → Int) (hw : ∀ g, 0 ≤ width g) (m : TI G) (prompt : List G)
-    (winW col : Int) (hinv : TIInv m) (hoff : m.offset = 0)
+    (winW col : Int) (hinv : TIInv m)
     (hp : promptLoop width winW prompt 0 = some col) (hcol : 0 ≤ col)
     (hfit : col + widthSumI width m.content + 4 < winW) :
-    draw width m prompt winW = .shown m (col + widthSumI width (m.content.take m.cursor.toNat)) := by
+    draw width m prompt winW =
+      .shown { m with offset := 0 } (col + widthSumI width (m.content.take m.cursor.toNat)) := by
   obtain ⟨content, cursor, offset, paste⟩ := m
   obtain ⟨h0, h1, _⟩ := hinv
-  simp only at h0 h1 hoff hfit ⊢
-  subst hoff
+  simp only at h0 h1 hfit ⊢
   have hnn := widthSumI_nonneg width hw content
   have hw0 : ¬ winW = 0 := by omega
   unfold draw
   simp only [hw0, ↓reduceIte, hp]
+  have hall := widthToCursor_all width (content.length : Int) content 0 0 (Int.le_refl 0) (by omega)
+  have hreset : widthToCursor width (content.length : Int) 0 content 0 0 + col + 4 < winW := by
+    rw [hall]; omega
+  simp only [hreset, ↓reduceIte]
   have hwtc := widthToCursor_le width hw cursor 0 content 0 0
   have hcond : ¬ ((0 : Int) < cursor ∧ widthToCursor width cursor 0 content 0 0 + col + 4 ≥ winW) := by omega
   simp only [scrollLoop, hcond, ↓reduceIte]
